@@ -28,6 +28,7 @@ func runC11(c *Ctx) {
 	c11Allocator(c, "C11.4")
 	c11NewRoot(c, "C11.5")
 	c11MarkDirty(c, "C11.6")
+	ruleAppendedPageDirty(c, "C11.24")
 	c11ParentUpdate(c, "C11.7")
 	c01RootRelocation(c, "C11.8")
 	ruleCatalogNameMatch(c, "C11.9")
